@@ -14,6 +14,7 @@ COQ_TARGET = "props/C16.v"
 DRIVERS = ["reserve", "core"]
 THEOREMS = ["C16_on_note", "C16_on_note_nth", "C16_on_cycle", "C16_cancel", "C16_arms", "C16_cc_on_note", "C16_cc_on_note_set",
             "C16_ramp_ticks", "C16_pb_ramp_ticks", "C16_ticks_exact", "C16_ramp_start", "C16_ramp_range", "C16_pb_ramp_range",
+            "C16_ramp_accuracy", "C16_ramp_accuracy_cc", "C16_ramp_accuracy_bend", "C16_ramp_accuracy_any_len",
             "C16_v_on_time", "C16_v_on_time_locate", "C16_random_width", "C16_random_reproducible", "C16_random_nonzero"]
 RULE = ("unit level: random value lists (None / empty / 1..8 values), cycle flag, start index, 0..14 calls with random "
         "defaults; segment lists of 1..3 (lo,hi,len) with len -3..400, frequencies -2..12, time bases 16..480, "
@@ -45,6 +46,10 @@ def ilist(rng, n, lo, hi):
 # ------------------------------------------------------------------------------------------------
 def unit_cases(rng, scale):
     lines = []
+    # the witnesses of C16_ramp_accuracy_tight (distance exactly 1 on a short ramp; `<= 1` failing on very long ramps):
+    # the model's f32 value is compared with rustc's on exactly these points
+    for (lo, hi, j, ln) in [(25, 0, 3, 5), (121, 0, 371738, 713973), (16294, 0, 2213, 4413), (0, 15284, 2462, 4851)]:
+        lines.append("f32ops\t%d\t%d\t%d\t%d" % (hi - lo, j, ln, lo))
     for _ in range(2500 * scale):
         pick = lambda: rng.choice(POOL) if rng.random() < 0.4 else rng.randint(-20000, 20000)
         lines.append("f32ops\t%d\t%d\t%d\t%d" % (pick(), pick(), pick(), pick()))
